@@ -178,10 +178,7 @@ func vMaterialise19() {
 		panic(err)
 	}
 	for i, d := range vDirs {
-		if i > 0 {
-			continue // /etc/cdi and /var/run/cdi are left as they are on the replay host (absent in the sandbox)
-		}
-		d.path = filepath.Join(root, "a")
+		d.path = filepath.Join(root, []string{"a", "etc", "run"}[i])
 		if d.state == 0 {
 			continue
 		}
@@ -203,26 +200,35 @@ func H_C19_report() {
 	}
 	for i, d := range vDirs {
 		d.state = nondetChoice("dir"+string(rune('0'+i)), 4)
-		if vnative() && i > 0 {
-			d.state = 0
-		}
 	}
 	if vnative() {
 		vMaterialise19()
 		defer os.RemoveAll(filepath.Dir(vDirs[0].path))
 	}
 	dirA := vDirs[0].path
-	// what the library computes for exactly the directories on the command line
-	lib, _ := cdi.NewCache(cdi.WithSpecDirs(dirA))
+	// the package default directories (natively: their materialised stand-ins)
+	cdi.DefaultSpecDirs = []string{vDirs[1].path, vDirs[2].path}
+	// with --spec-dirs: exactly the directories on the command line; without: the default directories
+	useFlag := nondetChoice("spec-dirs-given", 2) == 1
+	inUse := func(d *vDirM) bool { return (d.path == dirA) == useFlag }
+	var lib *cdi.Cache
+	if useFlag {
+		lib, _ = cdi.NewCache(cdi.WithSpecDirs(dirA))
+	} else {
+		lib, _ = cdi.NewCache()
+	}
 	wantDevs := lib.ListDevices()
 	wantVendors := lib.ListVendors()
 	wantErrs := lib.GetErrors()
 	vExpectErr = len(wantErrs) > 0
 
-	specDirs = []string{dirA}
+	specDirs = nil
+	if useFlag {
+		specDirs = []string{dirA}
+	}
 	schemaName = "builtin"
 	initSpecDirs()
-	vassert("no-exit-means-no-cache-errors", !vExpectErr)
+	vassert("no-exit-means-no-cache-errors", !useFlag || !vExpectErr)
 	vreach("initialised")
 
 	sub := nondetChoice("subcommand", 5)
@@ -262,9 +268,11 @@ func H_C19_report() {
 		case 1:
 			vassert("vendors-listed-exactly", vPrintedHas(d.vendor) == vHas(wantVendors, d.vendor))
 		case 2:
-			vassert("spec-files-listed-exactly", vPrintedHas(file) == vHas(wantVendors, d.vendor))
+			// a Spec file is listed iff it loaded; a file in error is reported iff the library reports it
+			_, inErr := wantErrs[file]
+			vassert("spec-files-and-files-in-error-listed-exactly", vPrintedHas(file) == (vHas(wantVendors, d.vendor) || inErr))
 		case 3:
-			vassert("spec-dirs-listed-exactly", vPrintedHas(d.path) == (d.path == dirA))
+			vassert("spec-dirs-listed-exactly", vPrintedHas(d.path) == inUse(d))
 		}
 	}
 	_ = strings.TrimSpace
